@@ -69,8 +69,17 @@ func (s *scenario) run() (answer string, seen []string) {
 	served := make(chan struct{}) // closed when the serve loop is through with the invokes
 	defer func() {
 		_ = c1.Close()
-		_ = man.Close()
-		_ = c2.Close()
+		// Close in a goroutine with a deadline: when NewServerStream panicked (this runs while the panic
+		// unwinds) the manager is left in a state in which Close waits forever, and eight such scenarios
+		// would wedge the whole suite before it can report the input that caused the panic
+		closed := make(chan struct{})
+		go func() { defer close(closed); defer func() { recover() }(); _ = man.Close() }()
+		select {
+		case <-closed:
+			_ = c2.Close()
+		case <-time.After(stepTimeout):
+			_ = c2.Close()
+		}
 		waitTimeout(&wg, stepTimeout)
 	}()
 
@@ -236,6 +245,12 @@ var undecodable = [][]byte{
 	{0x0a, 0x06, 0x12, 0x01, 0x76, 0x0a, 0x01, 0x6b},
 	{0x0a, 0x07, 0x0a, 0x01, 0x6b, 0x12, 0x01, 0x76, 0x00},
 	{0x0a, 0x80, 0x80, 0x80, 0x80, 0x80, 0x80, 0x80, 0x80, 0x80, 0x80, 0x01},
+	// one hostile length (2^63, 2^64-1, 2^62 padded), the other two consistent
+	{0x0a, 0x0e, 0x0a, 0x01, 0x6b, 0x12, 0x80, 0x80, 0x80, 0x80, 0x80, 0x80, 0x80, 0x80, 0x80, 0x01},
+	{0x0a, 0x0f, 0x0a, 0x01, 0x6b, 0x12, 0xff, 0xff, 0xff, 0xff, 0xff, 0xff, 0xff, 0xff, 0xff, 0x01, 0x76},
+	{0x0a, 0x0f, 0x0a, 0x80, 0x80, 0x80, 0x80, 0x80, 0x80, 0x80, 0x80, 0x80, 0x01, 0x6b, 0x12, 0x01, 0x76},
+	{0x0a, 0x80, 0x80, 0x80, 0x80, 0x80, 0x80, 0x80, 0x80, 0x80, 0x01, 0x0a, 0x01, 0x6b, 0x12, 0x01, 0x76},
+	{0x0a, 0x0e, 0x0a, 0x01, 0x6b, 0x12, 0x80, 0x80, 0x80, 0x80, 0x80, 0x80, 0x80, 0x80, 0xc0, 0x00},
 }
 
 // genScenario builds a sequence of calls on one connection. Stream ids increase from call to call
@@ -355,6 +370,10 @@ func runScoping(o *corr.Out) {
 		// metadata replaced by an empty packet
 		{class: "fixed-repeated", pkts: []pkt{{drpcwire.KindInvokeMetadata, 1, kv}, {drpcwire.KindInvokeMetadata, 1, nil}, {drpcwire.KindInvoke, 1, []byte("/a")}}, want: []string{"none"}},
 		{class: "fixed-bad", pkts: []pkt{{drpcwire.KindInvokeMetadata, 1, []byte{0x12, 0x00}}, {drpcwire.KindInvoke, 1, []byte("/a")}}, want: []string{"err"}},
+	}
+	// every undecodable shape once as the metadata of the first call (the random class "bad" draws from them)
+	for _, u := range undecodable[1:] {
+		fixed = append(fixed, &scenario{class: "fixed-bad", pkts: []pkt{{drpcwire.KindInvokeMetadata, 1, u}, {drpcwire.KindInvoke, 1, []byte("/a")}}, want: []string{"err"}})
 	}
 	for _, f := range fixed {
 		for mode := 0; mode < 4; mode++ {
